@@ -464,6 +464,42 @@ pub fn run(rep: &mut Report) {
         }
     }
 
+    // html stress (seeded change C12-5: a check-then-act on the shared directory map of
+    // `get_dirs_result`): a few hundred directories of 2-3 tiny files each, the files of a directory
+    // adjacent in the job queue, 8 worker threads. The ordinary oracles apply: every file has a row
+    // on its directory's page, every page's summary is the sum of its rows and of its files, the
+    // directory rows of index.html add up to the global totals behind the badge and coverage.json.
+    {
+        let mut srng = Rng::new(fnv64(&(rep.seed ^ 0xC13_57E5).to_le_bytes()));
+        let t0 = std::time::Instant::now();
+        for round in 0..rep.budget(2, 3) {
+            let ndirs = 300;
+            let mut files = vec![];
+            for d in 0..ndirs {
+                for f in 0..(2 + srng.below(2)) {
+                    let mut cov = grcov::CovResult::default();
+                    cov.lines.insert(1, srng.below(3));
+                    if srng.chance(1, 2) {
+                        cov.lines.insert(2, srng.below(2));
+                    }
+                    files.push(FileCase { rel: format!("st{}/d{:03}/f{}.c", round % 2, d, f), rel_abs: false, exists: true, src_lines: Some(2), cov });
+                }
+            }
+            let case = Case { files, precision: 2, branch: false, threads: 8 };
+            let o = observe(&ctx.env, &case, "html");
+            let req = request(&ctx.env, "html", &case);
+            rep.case(&req, true);
+            rep.count("stress.html.300_directories_8_threads");
+            if !o.ofails.is_empty() {
+                report_ofails(rep, &mut ctx, &case, "html", &o.ofails, false);
+            }
+            pend.push((cases.len(), "html", o.canon, o.ofails.iter().any(|f| f.finding.is_none())));
+            reqs.push(req);
+            cases.push(case);
+        }
+        rep.notes.push(format!("html stress: {:.1} s", t0.elapsed().as_secs_f64()));
+    }
+
     let model = run_model_named("gm_c13", &reqs, &rep.workdir, "c13");
     let mut sampled = std::collections::BTreeSet::new();
     for (j, (ci, w, canon, oracle_failed)) in pend.iter().enumerate() {
